@@ -7,10 +7,10 @@ META = dict(
                        "Submitter.__call__ / expand_workflow (resubmission)"],
     stubs=["vf/engine.py", "process death is modelled on persistent state only: at the selected persistence event a BaseException is raised and "
            "the cache root is copied *as it is at that instant*; the resubmission (fresh Submitter and Job objects) runs against that copy",
-           "a result/job file whose write was in flight is left half-written (first half of the real pickle)"],
+           "a result/job file whose write was in flight is left truncated (2 bytes, a quarter, half, or all but the last byte of the real pickle - symbolic choice)"],
     outside=["'does not block forever on a lock left by the dead process': stale lock files are deleted from the snapshot (filelock's "
              "stale-lock handling lives in the OS/PID table) - this clause is NOT claimed", "crashes of SLURM/SGE wrapper processes",
-             "truncation at byte offsets other than half the file", "crashes between two file-system operations inside third-party code"],
+             "truncation at byte offsets other than 2 bytes, a quarter, half and all-but-one byte of the file", "crashes between two file-system operations inside third-party code"],
     assumptions=["persistent state changes only at save(), record_error() and directory operations, so crash points between two of these "
                  "are covered by the earlier one"],
 )
@@ -30,10 +30,22 @@ def build(tier, seed, exclude):
     to = 110 if quick else 500
     for wf, lo, hi in ((False, 1, 4), (True, 1, 4), (True, 5, 8), (True, 9, 12)):
         for phase in (0, 1, 2):
-            g.cond(f"h_crash_{'wf' if wf else 'task'}_ev{lo}_{hi}_phase{phase}", "event: int, fails_later: bool", [f"{lo} <= event <= {hi}"], f"""
-                err = EN.c12(T.real(event), {phase}, {wf}, T.real(fails_later), 1)
+            extra, pre_x, arg = ("", "", "")
+            if phase == 1:
+                extra, pre_x, arg = (", cut: int", " and 0 <= cut <= 3", ", cut=T.real(cut)")
+            g.cond(f"h_crash_{'wf' if wf else 'task'}_ev{lo}_{hi}_phase{phase}", "event: int, fails_later: bool" + extra, [f"{lo} <= event <= {hi}" + pre_x], f"""
+                err = EN.c12(T.real(event), {phase}, {wf}, T.real(fails_later), 1{arg})
                 return T.fail(err) if err else True
             """, timeout=to)
+    # a task whose body is sensitive to leftovers of the dead process in its working directory
+    for phase in (0, 1, 2):
+        g.cond(f"h_crash_journal_phase{phase}", "event: int, cut: int", ["1 <= event <= 4 and 0 <= cut <= 3"], f"""
+            err = EN.c12(T.real(event), {phase}, False, False, 1, cut=T.real(cut), journal=True)
+            return T.fail(err) if err else True
+        """, timeout=to)
+    if False:
+        for phase in ():
+            pass
     g.cond("twin_c12", "event: int", ["1 <= event <= 2"], """
         err = EN.c12(T.real(event), 2, False, False, 1)
         return False
